@@ -1,6 +1,8 @@
 package main
 
 import (
+	"fmt"
+	"go/token"
 	"golang.org/x/tools/go/ssa"
 )
 
@@ -205,7 +207,7 @@ func init() {
 	fns := []string{"graph.ChromaticIndex", "graph.ChromaticNumber", "graph.dfsDsatur", "graph.GreedyColor", "graph.IsKColorable", "graph.Degeneracy"}
 	register(&propDef{
 		id:          "C09",
-		explanation: "Decides one narrow structural clause of 'come with valid witnesses': LIVE (a witness slice that ChromaticIndex, dfsDsatur/ChromaticNumber, GreedyColor, IsKColorable or Degeneracy allocates and returns is not allocated with a provably zero length, and at least one of the stores that populate it is statically reachable under E-PROVE's dominating-edge facts), plus READONLY (none of the C09 functions writes its graph argument) and EMIT (no write can reach the backing array of a clique AllMaximalCliques has already sent: writes go through the current iteration's own allocation only) and EDGEBYTE (no function of package graph - in particular no dense fast path of a colouring or clique function - uses the numeric value of an adjacency byte: any non-zero byte is an edge, so a test `== 1` gives different answers for the same graph held differently). Optimality, exactness and properness of the witnesses are value-level and not decided.",
+		explanation: "Decides one narrow structural clause of 'come with valid witnesses': LIVE (a witness slice that ChromaticIndex, dfsDsatur/ChromaticNumber, GreedyColor, IsKColorable or Degeneracy allocates and returns is not allocated with a provably zero length, and at least one of the stores that populate it is statically reachable under E-PROVE's dominating-edge facts), plus READONLY (none of the C09 functions writes its graph argument) and EMIT (no write can reach the backing array of a clique AllMaximalCliques has already sent: writes go through the current iteration's own allocation only) and EDGEBYTE (no function of package graph - in particular no dense fast path of a colouring or clique function - uses the numeric value of an adjacency byte: any non-zero byte is an edge, so a test `== 1` gives different answers for the same graph held differently) and COUNTERWIDTH (no tally kept in an 8/16-bit slice element or field - DSATUR's per-colour neighbour counts, say - is incremented without a proof that it stays in range: a uint8 count forgets the 256th neighbour). Optimality, exactness and properness of the witnesses are value-level and not decided.",
 		notDecided:  []string{"that CliqueNumber/IndependenceNumber/ChromaticNumber/ChromaticIndex/Degeneracy return the true optimum", "that the returned colouring is proper and uses exactly that many colours; that each maximal clique is reported once", "ChromaticPolynomial values; GreedyColor first-fit; invariance under relabelling and representation"},
 		assumptions: []string{"a witness whose every populating store is dead, or whose length is provably 0, is wrong for every non-empty input"},
 		run: func(c *Ctx, tier string) []*RuleResult {
@@ -226,7 +228,8 @@ func init() {
 			// the C09 functions must give the same answer for every representation of the same graph: a
 			// dense graph's adjacency bytes count as edges whenever they are non-zero
 			eb := ruleEdgeByte(c, "graph")
-			return []*RuleResult{lv, ro, em, eb}
+			cw := ruleCounterWidth(c, "graph")
+			return []*RuleResult{lv, ro, em, eb, cw}
 		},
 		controls: func(ctl *Ctx) []*RuleResult {
 			lv := &RuleResult{Rule: "LIVE"}
@@ -237,7 +240,77 @@ func init() {
 			ruleEmit(ctl, em, "livectl.GoodEmit")
 			em2 := &RuleResult{Rule: "EMIT"}
 			ruleEmit(ctl, em2, "livectl.BadEmitReuse")
-			return []*RuleResult{lv, em, em2}
+			cwc := ruleCounterWidth(ctl, "livectl")
+			return []*RuleResult{lv, em, em2, cwc}
 		},
 	})
+}
+
+// ruleCounterWidth: a counter kept in a memory cell (slice element or field) of an 8- or 16-bit
+// integer type and bumped by a constant wraps silently once the count passes the type's range
+// (a uint8 tally of coloured neighbours forgets the 256th): such an update must be of a value proved
+// to stay in range, or the cell must be wider.
+func ruleCounterWidth(c *Ctx, pkgRel string) *RuleResult {
+	r := &RuleResult{Rule: "COUNTERWIDTH", Doc: "no counter kept in a slice element or field of an 8/16-bit integer type is incremented without a proof that it stays in range", MinInst: 0}
+	for _, fn := range c.Funcs {
+		p := fnPkg(fn)
+		if p == nil || p.Pkg.Path() != c.Mod+"/"+pkgRel || fn.Synthetic != "" || fn.Blocks == nil {
+			continue
+		}
+		var P *Prover
+		for _, b := range fn.Blocks {
+			for _, in := range b.Instrs {
+				st, ok := in.(*ssa.Store)
+				if !ok {
+					continue
+				}
+				bo, ok := st.Val.(*ssa.BinOp)
+				if !ok || bo.Op != token.ADD || !isInt(bo.Type()) || intBits(bo.Type()) >= 32 {
+					continue
+				}
+				k, isK := constInt(bo.Y)
+				if !isK || k <= 0 {
+					continue
+				}
+				ld, ok := bo.X.(*ssa.UnOp)
+				if !ok || ld.Op != token.MUL {
+					continue
+				}
+				sameCell := ld.X == st.Addr
+				if !sameCell {
+					if a1, ok1 := ld.X.(*ssa.IndexAddr); ok1 {
+						if a2, ok2 := st.Addr.(*ssa.IndexAddr); ok2 && a1.X == a2.X && a1.Index == a2.Index {
+							sameCell = true
+						}
+					}
+					if sameFieldAddr(ld.X, st.Addr) {
+						sameCell = true
+					}
+				}
+				if !sameCell {
+					continue
+				}
+				switch st.Addr.(type) {
+				case *ssa.IndexAddr, *ssa.FieldAddr:
+				default:
+					continue // a local variable spilled to memory is not a persistent counter
+				}
+				if P == nil {
+					P = NewProver(c, fn)
+				}
+				_, hi, _ := typeRange(bo.Type())
+				src := c.srcAt(st.Pos())
+				if src == "" {
+					src = valName(st.Addr) + " += " + fmt.Sprint(k)
+				}
+				r.inst("%s: %s (%s)", c.short(fn), src, bo.Type())
+				ok2 := P.Prove(P.polyLoose(ld).add(constP(k-hi), 1), b)
+				r.oblig(ok2)
+				if !ok2 {
+					r.find(c.short(fn)+":narrow counter "+src, c.instrPos(st), "%s bumps a counter kept in a %s cell (%s) that is not proved to stay below %d: it wraps silently for inputs that reach the limit", c.short(fn), bo.Type(), src, hi)
+				}
+			}
+		}
+	}
+	return r
 }
